@@ -70,10 +70,15 @@ def gen_case(seed):
         elif k == "Product" and doms:
             doms.append(add(["Product", [r.choice(doms) for _ in range(2)]]))
         elif k == "Op":
-            kind = r.choice(["SumOp", "ReshapeOp", "GetitemOp", "GetsliceOp", "GetsliceOp"])
-            params = {"SumOp": [r.choice([None, 0, -1, [0, 1]]), r.choice([False, True])], "ReshapeOp": [r.choice([[2, 3], [6], [3, 2]])],
-                      "GetitemOp": [r.choice([0, 1, 2])], "GetsliceOp": [r.choice(SLICE_SPECS)]}[kind]
+            kind = r.choice(["SumOp", "SumOp", "ReshapeOp", "GetitemOp", "GetsliceOp", "GetsliceOp", "UnsqueezeOp"])
+            # -1 and -2 have the same Python hash; so have the tuples (-1,) and (-2,)
+            params = {"SumOp": [r.choice([None, 0, -1, -2, [0, 1], [-1], [-2]]), r.choice([False, True])], "ReshapeOp": [r.choice([[2, 3], [6], [3, 2], [-1], [2, -1]])],
+                      "GetitemOp": [r.choice([0, 1, 2])], "GetsliceOp": [r.choice(SLICE_SPECS)], "UnsqueezeOp": [r.choice([-1, -2, 0, 1])]}[kind]
             add(["Op", kind, params])
+            if r.random() < 0.5 and kind in ("SumOp", "UnsqueezeOp"):
+                twin = [(-2 if params[0] == -1 else -1 if params[0] == -2 else params[0])] + params[1:]
+                if twin != params:
+                    add(["Op", kind, twin])
         else:
             add(["Type", r.choice(["Binary", "Reduce", "Tensor"]), r.choice([["AddOp", "Funsor", "Funsor"], ["Op", "Tensor", "Tensor"], ["AssociativeOp", "Funsor", "frozenset"]])])
     steps = []
@@ -220,6 +225,8 @@ def make(w, recipes, i):
             return ops.ReshapeOp(tuple(params[0]))
         if kind == "GetitemOp":
             return ops.GetitemOp(params[0])
+        if kind == "UnsqueezeOp":
+            return ops.UnsqueezeOp(params[0])
         spec = params[0]
         return ops.GetsliceOp(slice(spec[1], spec[2], spec[3]) if spec[0] == "s" else spec[1])
     if k == "Type":
@@ -229,6 +236,24 @@ def make(w, recipes, i):
         tps = tuple({"AddOp": ops.AddOp, "Op": ops.Op, "AssociativeOp": ops.AssociativeOp, "Funsor": Funsor, "Tensor": Tensor, "frozenset": frozenset}[t] for t in rec[2])
         return cls[tps]
     raise AssertionError(k)
+
+
+def holds_array(obj, seen=None):
+    """Does the term (as built, through its constructor arguments) hold a numpy array?"""
+    import numpy as np
+    from funsor.terms import Funsor
+
+    seen = set() if seen is None else seen
+    if id(obj) in seen:
+        return False
+    seen.add(id(obj))
+    if isinstance(obj, np.ndarray):
+        return True
+    if isinstance(obj, Funsor):
+        return any(holds_array(a, seen) for a in getattr(obj, "_ast_values", ()))
+    if isinstance(obj, (tuple, frozenset)):
+        return any(holds_array(a, seen) for a in obj)
+    return False
 
 
 def has_array(recipes, i):
@@ -290,6 +315,8 @@ def requested_args_ok(w, recipes, i, obj):
             return tuple(d.get("shape")) == tuple(params[0])
         if kind == "GetitemOp":
             return d.get("offset") == params[0]
+        if kind == "UnsqueezeOp":
+            return d.get("dim") == params[0] and type(d.get("dim")) is int
     return True
 
 
@@ -531,9 +558,11 @@ class C07(Prop):
                     if i not in w.handles:
                         continue
                     obj = w.handles[i]
-                    if not isinstance(obj, Funsor) or not w.lazy.get(i, False):
+                    if not isinstance(obj, Funsor):
                         continue
-                    if act in ("pickle",) and has_array(recipes, i):
+                    if not w.lazy.get(i, False) and (act != "pickle" or holds_array(obj)):
+                        continue  # an evaluated result: only the array-free pickle round trip is demanded of it
+                    if act in ("pickle",) and (has_array(recipes, i) or holds_array(obj)):
                         continue  # arrays are compared by identity; pickling copies them
                     if act == "pickle":
                         try:
